@@ -145,7 +145,7 @@ class Trunc(Part):
         if case["kind"] == "model":
             absvecs = case["pop"]
         else:
-            pool = [{"c": [rng.randrange(0, 6) for _ in range(case["m"])], "m": int(rng.random() < 0.2)}
+            pool = [{"c": [rng.randrange(0, 6) for _ in range(case["m"])], "m": rng.choice([0, 0, 0, 0, 0, 0, 1, -1, 1, 2, -2])}
                     for _ in range(case["n"])]
             absvecs = pool
         n = len(absvecs)
@@ -223,7 +223,7 @@ class Tourn(Part):
             pop = inds + filler
             forced = [inds[0], inds[1]]
         else:
-            absvecs = [{"c": [rng.randrange(3), rng.randrange(3)], "m": int(rng.random() < 0.2)} for _ in range(case["n"])]
+            absvecs = [{"c": [rng.randrange(3), rng.randrange(3)], "m": rng.choice([0, 0, 0, 0, 0, 0, 1, -1, 1, 2, -2])} for _ in range(case["n"])]
             pop = make_inds(rng, absvecs)
             DummySelector([]).fast_nondominated_sorting(pop)
             forced = None
